@@ -22,7 +22,7 @@ ASSUMPTIONS = [
     'file round trips (LoggingMonitor, logfile_reader, read_history, write_*_file / read_*) are NOT claimed: no solver theory of decimal float formatting',
 ]
 BOUNDS = {'quick': dict(monitors=2, program_length='<=3', dim='1..2'), 'thorough': dict(monitors=2, program_length='<=4', dim='1..2')}
-BUDGET = {'quick': 300, 'thorough': 1800}
+BUDGET = {'quick': 1800, 'thorough': 1800}
 
 OPS = ('callA', 'callB', 'extend', 'prepend', 'add', 'slice', 'index', 'listindex')
 
